@@ -23,7 +23,8 @@ FORWARD = re.compile("|".join([
     r"^std::vec::Drain", r"^(std|core)::mem::(take|replace)$", r"^(std|core)::option::Option::<&T>::(cloned|copied)$",
     r"^std::collections::VecDeque::<T, A>::(pop_front|pop_back|drain)$", r"^(std|core)::iter::Iterator::by_ref$",
     r"^(std|core)::pin::Pin::<Ptr>::", r"^foyer_common::utils::option::OptionExt", r"^(std|core)::ops::Deref(Mut)?::deref(_mut)?$",
-    r"^(std|core)::option::Option::<T>::(as_mut|as_ref)$",
+    r"^(std|core)::option::Option::<T>::(as_mut|as_ref)$", r"^(std|core|futures_util|futures_core)::(future::)?Future::poll$",
+    r"^(std|core)::future::IntoFuture::into_future$", r"^futures_util::FutureExt::(poll_unpin|boxed)$",
 ]))
 # calls taking (value, closure): the payload continues as the closure's first explicit parameter; the closure's
 # return value is what the call returns
